@@ -10,7 +10,8 @@ not of the process.
 
 Run-time mutable cells (today):
   * `ctx`      `UniqueNumericIdGenerator.context_uniqifier = count(1)`          (identity generator)
-  * caches     `parse_date`, `parse_datetimespec` (`lru_cache(maxsize=512)`), `randomizer`,
+  * caches     `_parse_date_str`, `_parse_datetime_str` (`lru_cache(maxsize=512)`; since commit 885750c only the
+               string branches of `parse_date` / `parse_datetimespec` are cached), `randomizer`,
                `mask_for_key` (`lru_cache()`, i.e. 128) and Python's import cache `sys.modules`
                (through `plugins.resolve_plugin_alternatives → import_module`, unbounded)
   * `history`  the `RowHistoryCV` ContextVar (points to the RowHistory of the last run that executed)
@@ -365,6 +366,83 @@ def dialects (copies : Bool) : Dict → List (Option Int) → List Int
   | _, [] => []
   | d, v :: vs => dialectOf (prepareOptions copies d v).2 :: dialects copies (prepareOptions copies d v).1 vs
 
+/-! ### the entry points of the code (since commit 885750c) -/
+
+/-- `parse_date(d)`: `onlyStrings` is the pinned fact `Gen.GlobalState.cachesOnlyStrings` (true since
+    commit 885750c): a datetime or date argument is answered directly, only a string reaches the cache.
+    `onlyStrings = false` is the old behaviour (the whole function was cached). -/
+def parseDateCall (onlyStrings : Bool) (k : Key) (computed : Val) (kont : Obs → Prog) : Prog :=
+  match onlyStrings, k with
+  | true, .str _ => .op (.lookup .parseDate k computed) kont
+  | true, _ => kont (.val ((specF .parseDate k).getD computed))
+  | false, _ => .op (.lookup .parseDate k computed) kont
+
+/-- `parse_datetimespec(d)`: datetimes and dates directly; `"now"` / `"today"` read the clock every time;
+    other strings through the cache -/
+def parseDatetimespecCall (onlyStrings : Bool) (k : Key) (clk : Int) (computed : Val) (kont : Obs → Prog) : Prog :=
+  match onlyStrings, k with
+  | true, .str s =>
+    if s = "now" ∨ s = "today" then .op (.clock clk) (fun _ => kont (.val computed))
+    else .op (.lookup .parseDatetimespec k computed) kont
+  | true, _ => kont (.val ((specF .parseDatetimespec k).getD computed))
+  | false, _ => .op (.lookup .parseDatetimespec k computed) kont
+
+/-- the caches that are called with their key directly -/
+inductive OtherCache where
+  | randomizer | maskForKey | importModule
+  deriving DecidableEq, Repr
+
+def OtherCache.id : OtherCache → CacheId
+  | .randomizer => .randomizer
+  | .maskForKey => .maskForKey
+  | .importModule => .importModule
+
+/-- a run written against the entry points of the code instead of raw cache operations: the date
+    functions take *any* key (strings, dates, naive and aware datetimes of any offset) -/
+inductive Code where
+  | done
+  | fail (msg : String)
+  | emit (row : String) (rest : Code)
+  | parseDate (k : Key) (computed : Val) (kont : Obs → Code)
+  | parseDatetimespec (k : Key) (clk : Int) (computed : Val) (kont : Obs → Code)
+  | cached (c : OtherCache) (k : Key) (computed : Val) (kont : Obs → Code)
+  | op (o : Op) (kont : Obs → Code)
+
+def Code.toProg (onlyStrings : Bool) : Code → Prog
+  | .done => .done
+  | .fail m => .fail m
+  | .emit r rest => .emit r (rest.toProg onlyStrings)
+  | .parseDate k v kont => parseDateCall onlyStrings k v (fun o => (kont o).toProg onlyStrings)
+  | .parseDatetimespec k clk v kont => parseDatetimespecCall onlyStrings k clk v (fun o => (kont o).toProg onlyStrings)
+  | .cached c k v kont => .op (.lookup c.id k v) (fun o => (kont o).toProg onlyStrings)
+  | .op o kont => .op o (fun o' => (kont o').toProg onlyStrings)
+
+/-- any run (ids, draws, clock, failures allowed) whose library calls are pure on strings / ints / pairs -/
+inductive TameC (F : CacheId → Key → Val) : Code → Prop where
+  | done : TameC F .done
+  | fail {m} : TameC F (.fail m)
+  | emit {r c} : TameC F c → TameC F (.emit r c)
+  | parseDate {k v kont} : (∀ s, k = .str s → v = F .parseDate k) → (∀ o, TameC F (kont o)) → TameC F (.parseDate k v kont)
+  | parseDatetimespec {k clk v kont} : (∀ s, k = .str s → s ≠ "now" → s ≠ "today" → v = F .parseDatetimespec k) →
+      (∀ o, TameC F (kont o)) → TameC F (.parseDatetimespec k clk v kont)
+  | cached {c k v kont} : (k.isAware = false → v = F c.id k) → (∀ o, TameC F (kont o)) → TameC F (.cached c k v kont)
+  | op {o kont} : (∀ c k v, o ≠ .lookup c k v) → (∀ o', TameC F (kont o')) → TameC F (.op o kont)
+
+/-- a deterministic run: no generator, no draw, no clock (`now` / `today` excluded), the ContextVar read only
+    after it was set; **no restriction on the keys of the date functions** -/
+inductive DetC (F : CacheId → Key → Val) : Bool → Code → Prop where
+  | done {h} : DetC F h .done
+  | fail {h m} : DetC F h (.fail m)
+  | emit {h r c} : DetC F h c → DetC F h (.emit r c)
+  | parseDate {h k v kont} : (∀ s, k = .str s → v = F .parseDate k) → (∀ o, DetC F h (kont o)) → DetC F h (.parseDate k v kont)
+  | parseDatetimespec {h k clk v kont} : k ≠ .str "now" → k ≠ .str "today" →
+      (∀ s, k = .str s → v = F .parseDatetimespec k) → (∀ o, DetC F h (kont o)) → DetC F h (.parseDatetimespec k clk v kont)
+  | cached {h c k v kont} : k.isAware = false → v = F c.id k → (∀ o, DetC F h (kont o)) → DetC F h (.cached c k v kont)
+  | setHistory {h n kont} : (∀ o, DetC F true (kont o)) → DetC F h (.op (.setHistory n) kont)
+  | getHistory {kont} : (∀ o, DetC F true (kont o)) → DetC F true (.op .getHistory kont)
+  | enterDir {h d kont} : (∀ o, DetC F h (kont o)) → DetC F h (.op (.enterDir d) kont)
+  | leaveDir {h kont} : (∀ o, DetC F h (kont o)) → DetC F h (.op .leaveDir kont)
+
 /-! ### classification of the pinned cells -/
 
 namespace Known
@@ -413,8 +491,8 @@ def table : List (String × String × String × Class × String) :=
    ("standard_plugins/UniqueId.py", "UniqueId.allowed_options", "container", .constTable, "option declarations; only read"),
    ("standard_plugins/UniqueId.py", "UniqueNumericIdGenerator.context_uniqifier", "counter", .identityGen, "process-wide generator number: distinct generators (also of different runs) never share it (D19, C13)"),
    ("template_funcs.py", "StandardFuncs.Functions._faker_for_dates", "call:Faker", .rngInstance, "shared Faker used only by date_between / datetime_between (random functions)"),
-   ("template_funcs.py", "parse_date", "lru_cache", .aliasingCache, "keyed by the argument; aware datetimes of one instant share an entry but have different calendar days (D19b)"),
-   ("template_funcs.py", "parse_datetimespec", "lru_cache", .aliasingCache, "keyed by the argument; aware datetimes of one instant share an entry but different offsets; also caches `now`/`today` (D19, D19b)"),
+   ("template_funcs.py", "_parse_date_str", "lru_cache", .pureCache, "keyed by the string (commit 885750c: datetimes and dates never reach the cache)"),
+   ("template_funcs.py", "_parse_datetime_str", "lru_cache", .pureCache, "keyed by the string; `now` / `today` and datetime objects never reach the cache"),
    ("utils/scrambled_numbers.py", "mask_for_key", "lru_cache", .pureCache, "keyed by (key, numbits); works on a copy of the cached Random"),
    ("utils/scrambled_numbers.py", "randomizer", "lru_cache", .pureCache, "keyed by the int seed; the cached Random is never advanced (only copied)"),
    ("utils/template_utils.py", "number_chars", "call:set", .constTable, "character set; only read (`in`)"),
@@ -428,7 +506,7 @@ def runtimeMutable : List (String × String × String) :=
 
 /-- simple names of the run-time mutable cells -/
 def mutableNames : List String :=
-  ["RowHistoryCV", "context_uniqifier", "_faker_for_dates", "parse_date", "parse_datetimespec", "mask_for_key", "randomizer"]
+  ["RowHistoryCV", "context_uniqifier", "_faker_for_dates", "_parse_date_str", "_parse_datetime_str", "mask_for_key", "randomizer"]
 
 /-- every in-function store / mutation / advance of a cell known today: (file, function, cell, how) -/
 def cellWrites : List (String × String × String × String) :=
@@ -447,17 +525,11 @@ def processWrites : List (String × String × String × String) :=
 def mutableUses : List (String × String × String) :=
   [("data_generator_runtime.py", "Interpreter.execute", "RowHistoryCV"),
    ("object_rows.py", "LazyLoadedObjectReference.__getattr__", "RowHistoryCV"),
-   ("standard_plugins/Counters.py", "try_parse_date", "parse_date"),
-   ("standard_plugins/Schedule.py", "CalendarRule._normalize_start_date", "parse_datetimespec"),
-   ("standard_plugins/Schedule.py", "CalendarRule._normalize_until", "parse_date"),
-   ("standard_plugins/Schedule.py", "CalendarRule._normalize_until", "parse_datetimespec"),
-   ("standard_plugins/Schedule.py", "CalendarRule._process_special_cases", "parse_date"),
    ("standard_plugins/UniqueId.py", "UniqueNumericIdGenerator.__init__", "context_uniqifier"),
-   ("template_funcs.py", "StandardFuncs.Functions.date", "parse_date"),
    ("template_funcs.py", "StandardFuncs.Functions.date_between", "_faker_for_dates"),
-   ("template_funcs.py", "StandardFuncs.Functions.date_between.try_parse_date", "parse_date"),
-   ("template_funcs.py", "StandardFuncs.Functions.datetime", "parse_datetimespec"),
    ("template_funcs.py", "StandardFuncs.Functions.datetime_between", "_faker_for_dates"),
+   ("template_funcs.py", "parse_date", "_parse_date_str"),
+   ("template_funcs.py", "parse_datetimespec", "_parse_datetime_str"),
    ("utils/scrambled_numbers.py", "mask_for_key", "randomizer"),
    ("utils/scrambled_numbers.py", "scramble_number", "mask_for_key"),
    ("utils/scrambled_numbers.py", "unscramble_number", "mask_for_key")]
